@@ -712,6 +712,12 @@ class Interp:
 
     def getitem(self, o, k, fr):
         if isinstance(o, SSeq):
+            if isinstance(k, int) and not isinstance(k, bool) and k < 0:
+                # seq[-j] is seq[len - j] (IndexError when the sequence is shorter than j)
+                n = zint(o.n)
+                if not self.ctx.decide(n >= -k):
+                    raise PyRaise(IndexError, "tuple index out of range")
+                return o.item(lower(z3.simplify(n + k)))
             return o.item(k if not isinstance(k, SInt) else k)
         if isinstance(o, SBytes) and isinstance(k, int):
             return self.byte_at(o, k)
